@@ -334,7 +334,9 @@ static Built build(const std::vector<int>& word, bool urlBase) {
             } else {
                 std::string craw = "sub/k" + p + ".dtd";
                 int c = add_ref(pos, C_EXTSUB, craw, "", b.base, -1);
-                b.files[b.refs[c].target] = "<!ENTITY % xp" + p + " \"<!ENTITY g" + p + " SYSTEM 'n" + p + ".ent'>\">%xp" + p + ";";
+                // trailing newline: an external subset that *ends* with a reference to an internal PE is rejected by IG/DG scanners with "markup declaration
+                // expected" (well-formedness defect outside C19, reported in docs/c19.md); the newline keeps this kind about base URIs
+                b.files[b.refs[c].target] = "<!ENTITY % xp" + p + " \"<!ENTITY g" + p + " SYSTEM 'n" + p + ".ent'>\">%xp" + p + ";\n";
                 int r = add_ref(pos, C_GE, "n" + p + ".ent", "", b.refs[c].abs, c);
                 b.files[b.refs[r].target] = leaf;
                 decoy("n" + p + ".ent", leaf);
